@@ -57,11 +57,7 @@ def check_delegation(ctx, rule, only_array=False, only=None):
         def run(it_, m=m):
             sv = Inst(ci, {}, "self")
             bound = it_.symbolic_args(m)
-            if it_._effective_decorators(m):
-                from ..values import FuncV
-
-                return it_.call(FuncV(m, None, sv, ci), [bound[p] for p in m.params[1:] if p in bound], {k: bound[k] for k in m.kwonly if k in bound}, m.node, None)
-            return it_._exec_function(m, bound, sv, None, ci)
+            return it_.enter(m, bound, sv, None, ci)
 
         paths = [p for p in it.explore(run) if p.outcome == "return"]
         if len(paths) != 1:
